@@ -145,10 +145,13 @@ def check_pair(a0, b0):
     S = DiffNode.Status
     a, b = copy.deepcopy(a0), copy.deepcopy(b0)
     out, oracle, tags = [], [], set()
-    d = DirDiff.compare(a, b)
+    try:
+        d = DirDiff.compare(a, b)
+        nodes = d._diff_root.nodes() if d._diff_root is not None else []
+    except Exception as e:  # noqa: BLE001  (compare is total on DirHashsums)
+        return ["empty ?", "nodes ?"] + ["get ?" for _ in query_paths(a0, b0)], [dict(kind="compare-raised", error="%s: %s" % (type(e).__name__, str(e)[:200]))], []
     if a != a0 or b != b0:
         oracle.append(dict(kind="input-mutated"))
-    nodes = d._diff_root.nodes() if d._diff_root is not None else []
     out.append("empty " + ("T" if d.is_empty else "F"))
     out.append(" ".join(["nodes"] + [_node_line(n) for n in nodes]))
     # --- no difference iff equal
